@@ -556,6 +556,8 @@ class C01(Check):
     trusted_base = ["Spec/OF10Layouts.lean: hand transcription of openflow.h 1.0 (checked against the standard's own OFP_ASSERT sizes)",
                     "harness/translate/codec_layouts.py decides which layout stands for a pack/unpack method; every layout it emits is executed against the real pack()/unpack() bytes on every run",
                     "hand models Model/CodecOF.lean (ofp_packet_out), Model/CodecMatch.lean (ofp_match), Model/CodecNXM.lean (NXM TLVs): tied to the code by the correspondence run only",
+                    "Spec/NXLayouts.lean: hand transcription of nicira-ext.h (nx_flow_mod, nx_packet_in, nx_action_learn, nx_action_bundle, flow_mod_spec header/immediate sizes); the NXM header numbers used for learn specs are a table in the harness",
+                    "_packzs/_readzs are read as the zstr field by name; their behaviour (one byte per character = latin-1, NUL/over-long refused) is tied to the code by the correspondence run and the string cases",
                     "Python __eq__ methods are exercised through the harness, not modelled"]
     assumptions = ["struct.pack/unpack_from behave as documented (big-endian, range-checked)", "assert statements are live (no -O)",
                    "field values are in their wire ranges (Fits); out-of-range values make pack() raise struct.error in the code and encode = none in the model"]
@@ -583,7 +585,8 @@ class C01(Check):
                   "normalised max_len. The property oracle (incl. the comparison with the openflow.h layout) is pure Python over the parsed text of Spec/OF10Layouts.lean and works "
                   "when the Lean build is broken. Trusted: Lean kernel, Spec/OF10Layouts.lean transcription, the translator's canonicalisation (checked by bytes on every run), hand models.")
     rule = ("case = one codec object described as a JSON spec built from the library's own classes; corpus = per-field boundary sweep {0,1,max,sign bit} of every translated class, "
-            "strings of every length, action lists 0..8183, payloads 0..1500, stats replies with 0..40 entries, every NXM type with/without mask; "
+            "strings of every length and every class of character (ASCII, U+0080..U+00FF incl. as last byte of a full field, beyond U+00FF, NUL inside/at either end, one too long; as str and as bytes; unrepresentable ones must be refused), "
+            "nx_action_learn with immediates of 1..64 and wider bits x every source/destination kind laid out from nicira-ext.h's description, spec lists of every size mod 8, bundles with 0..12 slaves, action lists 0..8183, payloads 0..1500, stats replies with 0..40 entries, every NXM type with/without mask; "
             "non-trivial = pack() produced bytes and the object has at least one non-default field")
 
     # ------------------------------------------------------------------ setup / translate
